@@ -15,6 +15,7 @@ pub mod src;
 pub mod util;
 include!("mods.rs");
 mod registry;
+mod defrag_hist;
 
 fn parse_vals(s: &str) -> (String, Vec<Vec<u8>>) {
     // minimal JSON reader for {"harness": "...", "vals": [[..],[..]]}
@@ -47,9 +48,26 @@ fn esc(s: &str) -> String { s.replace('\\', "\\\\").replace('"', "\\\"").replace
 fn main() {
     let mut inp = String::new();
     std::io::stdin().read_to_string(&mut inp).unwrap();
+    panic::set_hook(Box::new(|_| {}));
+    if inp.contains("\"defrag_search\"") {
+        // bounded witness search over defragmenter histories (witness finder only)
+        let depth: usize = inp.split("\"depth\":").nth(1).and_then(|t| t.trim().chars().take_while(|c| c.is_ascii_digit()).collect::<String>().parse().ok()).unwrap_or(3);
+        match defrag_hist::search(depth) {
+            Some((ops, d)) => println!("{{\"outcome\": \"violation\", \"detail\": \"{}\", \"defrag_history\": {}}}", esc(&d), defrag_hist::ops_to_json(&ops)),
+            None => println!("{{\"outcome\": \"not-reproduced\", \"detail\": \"no diverging history of length <= {} over the witness alphabet\"}}", depth),
+        }
+        return;
+    }
+    if inp.contains("\"defrag_history\"") {
+        let ops = defrag_hist::ops_from_json(&inp);
+        match defrag_hist::run_history(&ops) {
+            Some(d) => println!("{{\"outcome\": \"violation\", \"detail\": \"{}\"}}", esc(&d)),
+            None => println!("{{\"outcome\": \"not-reproduced\", \"detail\": \"real parser follows the contract on this history ({} ops)\"}}", ops.len()),
+        }
+        return;
+    }
     let (h, vals) = parse_vals(&inp);
     let mut s = src::ReplaySrc::new(vals);
-    panic::set_hook(Box::new(|_| {}));
     let res = panic::catch_unwind(panic::AssertUnwindSafe(|| registry::run(&h, &mut s)));
     let (outcome, detail) = match res {
         Ok(false) => ("not-replayable".to_string(), "harness is not in the replay registry (in-crate or stubbed harness)".to_string()),
